@@ -307,10 +307,11 @@ struct CaseState
    CaseState() : cur(&own), sup(true), haveSimple(false), isEscapeOf(false) {}
 };
 
-static S flags(const StringMatcher & m)
+static S flags(const StringMatcher & m, bool sup)
 {
    std::ostringstream o;
-   o << "n" << (m.IsNegate()?1:0) << ",x" << (m._flags.IsBitSet(StringMatcher::STRINGMATCHER_FLAG_CANMATCHMULTIPLEVALUES)?1:0)
+   o << "g"; if (sup) o << (m._flags.IsBitSet(StringMatcher::STRINGMATCHER_FLAG_REGEXVALID)?1:0); else o << "-";
+   o << ",n" << (m.IsNegate()?1:0) << ",x" << (m._flags.IsBitSet(StringMatcher::STRINGMATCHER_FLAG_CANMATCHMULTIPLEVALUES)?1:0)
      << ",v" << (m.IsPatternListOfUniqueValues()?1:0) << ",q" << (m.IsPatternUnique()?1:0) << ",s" << (m.IsSimple()?1:0) << ",r[";
    for (uint32 i=0; i<m._ranges.GetNumItems(); i++) {if (i) o << ","; o << m._ranges[i].GetMin() << "-" << m._ranges[i].GetMax();}
    o << "],p" << hexm(m.GetPattern());
@@ -419,7 +420,7 @@ static void run_case(int k, const S & body)
          const status_t r = cs.cur->SetPattern(String(p.c_str()), simple);
          cs.sup = (marker == "S");
          cs.pattern = p; cs.haveSimple = simple; cs.uniqueMatches.clear();
-         o << c << "=" << (cs.sup ? (r.IsOK() ? "ok" : "err") : "U") << "," << flags(*cs.cur) << "," << statics(p) << ";";
+         o << c << "=" << (cs.sup ? (r.IsOK() ? "ok" : "err") : "U") << "," << flags(*cs.cur, cs.sup) << "," << statics(p) << ";";
          if (c == "pl")
          {
             // the convenience form must agree with the two-step form on success/failure
@@ -437,11 +438,11 @@ static void run_case(int k, const S & body)
          *cs.cur = tmp;
          cs.sup = ((a.size() > 4 ? a[4] : S("S")) == "S");
          cs.pattern = p; cs.haveSimple = false; cs.isEscapeOf = false; cs.uniqueMatches.clear();
-         o << "as=" << flags(*cs.cur) << ";";
+         o << "as=" << flags(*cs.cur, cs.sup) << ";";
          if (!(*cs.cur == tmp)) cs.fails.insert("assign-not-equal");
       }
-      else if (c == "ng") {cs.cur->SetNegate((a.size() > 1)&&(a[1] == "1")); cs.haveSimple = false; o << "ng=" << flags(*cs.cur) << ";";}
-      else if (c == "rs") {cs.cur->Reset(); cs.sup = true; cs.haveSimple = false; cs.isEscapeOf = false; o << "rs=" << flags(*cs.cur) << ";";}
+      else if (c == "ng") {cs.cur->SetNegate((a.size() > 1)&&(a[1] == "1")); cs.haveSimple = false; o << "ng=" << flags(*cs.cur, cs.sup) << ";";}
+      else if (c == "rs") {cs.cur->Reset(); cs.sup = true; cs.haveSimple = false; cs.isEscapeOf = false; o << "rs=" << flags(*cs.cur, cs.sup) << ";";}
       else if (c == "m")
       {
          const S s = unhex(a.size() > 1 ? a[1] : "");
